@@ -122,6 +122,15 @@ def Router.addStatic (r : Router) (method p : Bytes) (id : Nat) : Except Panic (
   let path ← storedPath r.strict r.prefix_ p
   return ({ r with stable := r.stable.add method path id }, path)
 
+/-- a registration program: static routes, each inside its own nesting of groups `gs` (outermost first);
+    `Group` saves the prefix, extends it, runs the body and restores it -/
+def Router.regAll (r : Router) : List (List Bytes × Bytes × Bytes × Nat) → Except Panic Router
+  | [] => .ok r
+  | (gs, m, p, id) :: rest => do
+    let pre ← nestedPrefix r.strict r.prefix_ gs
+    let (r', _) ← ({ r with prefix_ := pre }).addStatic m p id
+    Router.regAll { r' with prefix_ := r.prefix_ } rest
+
 /-- `QuickMatch` restricted to the static tier (no HEAD fallback, no fallback route, no 405 handling —
     those are C06): the intercept path replaces the request path, `formatPath`, `stableRoutes[method+path]`. -/
 def Router.matchStatic (r : Router) (method path : Bytes) : Except Panic (Option Nat) := do
